@@ -19,14 +19,24 @@ VARIABLES row, result
 vars == <<row, result>>
 
 Counts == {1, 2, 4}
-SnpRows == [tech : {"snp"}, listed : SUBSET Counts, svsm : BOOLEAN, short2 : BOOLEAN,
-            meas : {"m1", "m2", "m4", "ms", "n2", "un", "short"}, req : {0, 1, 2, 4, 8},
-            digest : {"none", "eq", "diff"}, entry : {"SNP", "EndorsementProto", "SNPFunc", "SevValidate", "cli_sev"}]
+\* table: what the attestation's own certificate table carries under the GCE firmware GUID next to the
+\* endorsement the caller supplies: nothing, or ("other") another genuine endorsement that lists the
+\* report's measurement for every count.  The caller's endorsement is the one validated against, so
+\* the table's never decides (SevValidate only extracts from the attestation when none is supplied).
+SnpRows == {r \in [tech : {"snp"}, listed : SUBSET Counts, svsm : BOOLEAN, short2 : BOOLEAN,
+                   meas : {"m1", "m2", "m4", "ms", "n2", "un", "short"}, req : {0, 1, 2, 4, 8},
+                   digest : {"none", "eq", "diff"},
+                   entry : {"SNP", "EndorsementProto", "SNPFunc", "SevValidate", "cli_sev"},
+                   table : {"none", "other"}] :
+              r.table = "other" => r.entry \in {"SevValidate", "cli_sev"} /\ r.digest = "none"}
 TdxIds == {"d0", "r16", "r16e", "r32"}
 RamOf(id) == IF id = "d0" THEN 0 ELSE IF id = "r32" THEN 32 ELSE 16
-TdxRows == [tech : {"tdx"}, rows : SUBSET TdxIds, emptyrow : BOOLEAN,
-            mrtd : {"d0", "r16", "r16e", "r32", "n16", "un"}, ram : {0, 16, 32, 64},
-            entry : {"TdxPolicy", "TdxValidate", "cli_tdx"}]
+\* base: the caller's base policy; "mixed" = it already carries an MRTD allow-list made of one endorsed
+\* value and the quote's own MRTD (derivation without overwrite must refuse it, not adopt the list)
+TdxRows == {r \in [tech : {"tdx"}, rows : SUBSET TdxIds, emptyrow : BOOLEAN,
+                   mrtd : {"d0", "r16", "r16e", "r32", "n16", "un"}, ram : {0, 16, 32, 64},
+                   entry : {"TdxPolicy", "TdxValidate", "cli_tdx"}, base : {"none", "mixed"}] :
+              r.entry = "cli_tdx" => r.base = "none"}
 
 MName(c) == IF c = 1 THEN "m1" ELSE IF c = 2 THEN "m2" ELSE "m4"
 \* value listed for count c ("" = a zero-length entry)
@@ -54,7 +64,7 @@ VerifySNP(r, req) ==
 SevValidate(r, req) ==
   /\ r.meas # "short"                                   \* validator's length gate
   /\ req # 0 => /\ req \in r.listed                      \* SevPolicy needs a table entry for the count
-                /\ Value(r, req) = "" \/ Value(r, req) = r.meas   \* policy measurement ("" = unchecked)
+                /\ Value(r, req) # "" /\ Value(r, req) = r.meas   \* policy measurement (an empty entry is refused)
   /\ VerifySNP(r, req)
 
 SnpAccept(r) ==
@@ -71,7 +81,8 @@ TdxAccept(r) ==
       cand == TdxListedFor(r, ram)
       \* the zero-length row (RAM 16) is in the allow-list of the legacy design when it matches
       emptyIn == r.emptyrow /\ ram \in {0, 16}
-  IN IF Design = "legacy_tdx"
+  IN IF r.base = "mixed" THEN FALSE                                      \* "already has any_mr_td": refused without overwrite
+     ELSE IF Design = "legacy_tdx"
        THEN (cand = {} /\ ~emptyIn) \/ emptyIn \/ r.mrtd \in cand      \* empty list / empty entry = unchecked
        ELSE cand # {} /\ r.mrtd \in cand
 
